@@ -262,3 +262,15 @@ Print Assumptions C02_bitsem_tsem_lor_short_circuit.
 Theorem C02_bitsem_tsem_match_first : ltac:(let T := type of tsem_match_first in exact T).
 Proof. exact tsem_match_first. Qed.
 Print Assumptions C02_bitsem_tsem_match_first.
+
+(* an index panics OutOfBounds exactly when it is not below the array length (reads and writes) *)
+From GV Require Import Compile.TSemArray.
+Theorem C02_bitsem_tsem_bounds_check : ltac:(let T := type of tsem_bounds_check in exact T).
+Proof. exact tsem_bounds_check. Qed.
+Print Assumptions C02_bitsem_tsem_bounds_check.
+Theorem C02_bitsem_tsem_array_read : ltac:(let T := type of tsem_array_read in exact T).
+Proof. exact tsem_array_read. Qed.
+Print Assumptions C02_bitsem_tsem_array_read.
+Theorem C02_bitsem_tsem_array_write_out_of_bounds : ltac:(let T := type of tsem_array_write_out_of_bounds in exact T).
+Proof. exact tsem_array_write_out_of_bounds. Qed.
+Print Assumptions C02_bitsem_tsem_array_write_out_of_bounds.
